@@ -566,7 +566,21 @@ impl Compiler {
             } else {
                 let options = self.builder.regex.select(exclude_names);
                 let not_taken = self.builder.regex.not(options);
-                self.builder.regex.and(vec![regex, not_taken])
+                let regex = self.builder.regex.and(vec![regex, not_taken]);
+                // every key the pattern matches may already be a declared property:
+                // an empty key lexeme would leave a dead end after the last declared property
+                if let Ok(mut rx) = self
+                    .builder
+                    .regex
+                    .spec
+                    .regex_builder
+                    .to_regex_limited(regex, 10_000)
+                {
+                    if rx.always_empty() {
+                        continue;
+                    }
+                }
+                regex
             };
 
             let name = self.builder.lexeme(regex);
